@@ -56,11 +56,11 @@ structure LP (a0 beta : Int) (ply : Nat) (st : LoopSt) : Prop where
   prov : a0 < st.alpha → st.bestScore = st.alpha ∧ Prov ply st.alpha
 
 theorem posti_nmLoop_prov (K : Keys) (C : Pos → Prop)
-    (hmove : ∀ p m q, C p → makeMove K p m = some q → isLegal q = true → C q)
+    (hmove : ∀ p m q, C p → GenMv p m → makeMove K p m = some q → isLegal q = true → C q)
     (recur : NegaFn) (p : Pos) (hp : C p) (a0 beta : Int) (depth ply : Nat) (prev : Move) (fp : Bool)
     (hrec : ∀ q a b d cn pm, C q → InWin a b →
       PostI TTInv (fun r : NodeRes => InRange r.1 ∧ (a < r.1 ∧ r.1 < b → Prov (ply + 1) r.1)) (recur q a b d (ply + 1) cn pm))
-    (l : List Move) (st : LoopSt) (hst : LP a0 beta ply st) :
+    (l : List Move) (hl : ∀ m ∈ l, GenMv p m) (st : LoopSt) (hst : LP a0 beta ply st) :
     PostI TTInv (fun st' : LoopSt => a0 < st'.bestScore ∧ st'.bestScore < beta → Prov ply st'.bestScore)
       (nmLoop K recur p beta depth ply prev fp l st) := by
   induction l generalizing st with
@@ -72,6 +72,8 @@ theorem posti_nmLoop_prov (K : Keys) (C : Pos → Prop)
     obtain ⟨e, pr⟩ := hst.prov (by omega)
     rw [e]; exact pr
   | cons m rest ih =>
+    replace ih := ih (fun m' hm' => hl m' (List.mem_cons_of_mem _ hm'))
+    have hgm : GenMv p m := hl m List.mem_cons_self
     unfold nmLoop
     split
     · exact posti_panic
@@ -80,7 +82,7 @@ theorem posti_nmLoop_prov (K : Keys) (C : Pos → Prop)
       · exact ih st hst
       · rename_i hleg
         have hleg : isLegal q = true := by simpa using hleg
-        have hcq : C q := hmove p m q hp hq hleg
+        have hcq : C q := hmove p m q hp hgm hq hleg
         extract_lets st1 alpha hk jp
         have hst1 : LP a0 beta ply st1 := ⟨hst.win, hst.best, hst.prov⟩
         have hwin := hst.win
@@ -184,7 +186,7 @@ theorem ttinv_tblInv (K : Keys) (C : Pos → Prop) : TblInv K C TTInv where
 
 /-- every value of `negamax` is in range and the table stays sane (`posta_negamax_gen` for `TTSane`) -/
 theorem posti_negamax_rng (K : Keys) (C : Pos → Prop)
-    (hmove : ∀ p m q, C p → makeMove K p m = some q → isLegal q = true → C q)
+    (hmove : ∀ p m q, C p → GenMv p m → makeMove K p m = some q → isLegal q = true → C q)
     (hnull : ∀ p, C p → isInCheck p p.side = false → C (makeNull K p).1)
     (heval : ∀ p v, C p → evalRaw p = some v → EvalRange v)
     (fuel : Nat) (p : Pos) (hp : C p) (alpha beta : Int) (depth ply : Nat) (cn : Bool) (prev : Move)
@@ -193,8 +195,8 @@ theorem posti_negamax_rng (K : Keys) (C : Pos → Prop)
   (posta_negamax_gen K C TTInv hmove hnull (fun p v hp hv => evalrange_mate (heval p v hp hv)) (ttinv_tblInv K C)
     fuel p hp alpha beta depth ply cn prev hw hply).toPostI
 
-theorem posti_negamax_prov (K : Keys) (C : Pos → Prop)
-    (hmove : ∀ p m q, C p → makeMove K p m = some q → isLegal q = true → C q)
+theorem posti_negamax_prov_gen (K : Keys) (C : Pos → Prop)
+    (hmove : ∀ p m q, C p → GenMv p m → makeMove K p m = some q → isLegal q = true → C q)
     (hnull : ∀ p, C p → isInCheck p p.side = false → C (makeNull K p).1)
     (heval : ∀ p v, C p → evalRaw p = some v → EvalRange v)
     (fuel : Nat) (p : Pos) (hp : C p) (alpha beta : Int) (depth ply : Nat) (cn : Bool) (prev : Move)
@@ -234,8 +236,9 @@ theorem posti_negamax_prov (K : Keys) (C : Pos → Prop)
             unfold jp3
             refine posti_seq (posti_true posti_get) ?_
             intro s2
-            refine posti_seq (posti_true (posti_ofOption _)) ?_
-            intro scored
+            refine posti_bind_of (posti_ofOption _) ?_
+            intro scored hsc
+            have hlg := genMv_visit_moves p _ _ _ ply scored hsc
             have hstR : StR beta { alpha := alpha, bestScore := -INF } := ⟨hw, inrange_minf⟩
             have hst0 : LP alpha beta ply { alpha := alpha, bestScore := -INF } :=
               ⟨hw, hw.1, fun h => absurd h (Int.lt_irrefl _)⟩
@@ -243,12 +246,12 @@ theorem posti_negamax_prov (K : Keys) (C : Pos → Prop)
               (posta_nmLoop_rng ttinv_stable K C hmove _ p hp beta depth' ply prev fp
                 (fun q a b d cn pm hq h => posta_negamax_gen K C TTInv hmove hnull
                   (fun p v hp hv => evalrange_mate (heval p v hp hv)) (ttinv_tblInv K C) fuel q hq a b d (ply + 1) cn pm h (by omega))
-                _ _ hstR).toPostI
+                _ hlg _ hstR).toPostI
               (posti_nmLoop_prov K C hmove _ p hp alpha beta depth' ply prev fp
                 (fun q a b d cn pm hq h => posti_and
                   (posti_negamax_rng K C hmove hnull heval fuel q hq a b d (ply + 1) cn pm h (by omega))
                   (ih q hq a b d (ply + 1) cn pm h (by omega)))
-                _ _ hst0)) ?_
+                _ hlg _ hst0)) ?_
             intro st hst
             obtain ⟨hbest, hq⟩ := hst
             split
@@ -296,8 +299,8 @@ theorem posti_negamax_prov (K : Keys) (C : Pos → Prop)
           exact posti_popPath ttinv_stable body hbody
 
 /-- the root search: a score strictly inside an `InWin` window, from a sane table, has a provenance at ply 0 -/
-theorem searchRoot_prov (K : Keys) (C : Pos → Prop)
-    (hmove : ∀ p m q, C p → makeMove K p m = some q → isLegal q = true → C q)
+theorem searchRoot_prov_gen (K : Keys) (C : Pos → Prop)
+    (hmove : ∀ p m q, C p → GenMv p m → makeMove K p m = some q → isLegal q = true → C q)
     (hnull : ∀ p, C p → isInCheck p p.side = false → C (makeNull K p).1)
     (heval : ∀ p v, C p → evalRaw p = some v → EvalRange v)
     (root : Pos) (hroot : C root) (d : Nat) (a b : Int) (hw : InWin a b) (s s' : SState) (hs : TTSane s.tt)
@@ -305,8 +308,29 @@ theorem searchRoot_prov (K : Keys) (C : Pos → Prop)
     Prov 0 v := by
   unfold searchRoot at h
   rw [bind_ok (SM.modify _) _ s { s with killers := {} } () rfl] at h
-  exact (posti_negamax_prov K C hmove hnull heval 300 root hroot a b d 0 true 0 hw (by decide)
+  exact (posti_negamax_prov_gen K C hmove hnull heval 300 root hroot a b d 0 true 0 hw (by decide)
     { s with killers := {} } (v, pvl) s' hs h).2 ⟨h1, h2⟩
+
+/-! ### the statements for a class closed under ALL move words (as used by C04c) -/
+
+theorem posti_negamax_prov (K : Keys) (C : Pos → Prop)
+    (hmove : ∀ p m q, C p → makeMove K p m = some q → isLegal q = true → C q)
+    (hnull : ∀ p, C p → isInCheck p p.side = false → C (makeNull K p).1)
+    (heval : ∀ p v, C p → evalRaw p = some v → EvalRange v)
+    (fuel : Nat) (p : Pos) (hp : C p) (alpha beta : Int) (depth ply : Nat) (cn : Bool) (prev : Move)
+    (hw : InWin alpha beta) (hply : ply + fuel ≤ 32767) :
+    PostI TTInv (fun r : NodeRes => alpha < r.1 ∧ r.1 < beta → Prov ply r.1)
+      (negamax K fuel p alpha beta depth ply cn prev) :=
+  posti_negamax_prov_gen K C (fun p m q hp _ => hmove p m q hp) hnull heval fuel p hp alpha beta depth ply cn prev hw hply
+
+theorem searchRoot_prov (K : Keys) (C : Pos → Prop)
+    (hmove : ∀ p m q, C p → makeMove K p m = some q → isLegal q = true → C q)
+    (hnull : ∀ p, C p → isInCheck p p.side = false → C (makeNull K p).1)
+    (heval : ∀ p v, C p → evalRaw p = some v → EvalRange v)
+    (root : Pos) (hroot : C root) (d : Nat) (a b : Int) (hw : InWin a b) (s s' : SState) (hs : TTSane s.tt)
+    (v : Int) (pvl : Option (List Move)) (h : searchRoot K root d a b s = (.ok (v, pvl), s')) (h1 : a < v) (h2 : v < b) :
+    Prov 0 v :=
+  searchRoot_prov_gen K C (fun p m q hp _ => hmove p m q hp) hnull heval root hroot d a b hw s s' hs v pvl h h1 h2
 
 end BadWin
 end Clemens
